@@ -71,6 +71,14 @@ def check(ctx):
         except Exception as e:
             ctx.notes.append(f"rename raised {e!r} on case {i}")
         pts = OC.split_points(t, r["ast"])
+        # a comment between two top-level statements whose BODY looks like code after a line-break look-alike
+        # (bare CR, form feed, vertical tab, U+2028, U+0085): still one comment, so nothing may change
+        if pts:
+            o = rnd.choice(pts)
+            bomb = rnd.choice(["// note\rint zz9 = 1;\n", "// note\x0cqubit zz9;\n", "// a\x0breset zz9;\n", "// a\u2028int zz9;\n",
+                               "// a\u0085int zz9;\n", "/* a\r\n@x y\npragma z\n*/", "// x \\\nint zz9;\n".replace("\\\n", "\\") + "\n"])
+            bt = t.encode("utf-8")
+            variants.append((i, "layout", (bt[:o] + b"\n" + bomb.encode("utf-8") + bt[o:]).decode("utf-8"), None))
         for o in (pts if len(pts) <= 4 else rnd.sample(pts, 4)):
             variants.append((i, "prefix", OC.prefix_at(t, o), None))
         variants.append((i, "twice", t, None))
